@@ -19,7 +19,8 @@ RULE = ("E1+E3: ('sig', curve, hash, encoding, canonise) = full product of 17 cu
         "verification under another key fails; ('pre', curve, loader, lazy) keys obtained from every loader verify after precompute(); ('rs', curve, class) signatures whose r / s fall into edge classes (nonce 1 and n-1, r or s with one / two leading zero bytes, top bit set), found by deterministic search with the reference curve, through every encoding; ('keyhist', curve, ops) every sequence of 3 operations (sign / verify with different hashes and messages, verify a forgery, precompute) on ONE live key pair; ('tamper', curve, encoding, what, bit) EVERY single-bit change of an 8-byte message and of the "
         "encoded signature (all bits on 5 curves quick / 17 thorough, one bit per byte on the rest) must raise BadSignatureError; ('range', curve, "
         "encoding, r-class, s-class) r, s in {0, n, n+1, 2^k, valid} must be rejected; ('malformed', curve, encoding, i) truncated / extended "
-        "encodings raise the documented errors. Distinct = case tuples.")
+        "encodings raise the documented errors. Distinct = case tuples."
+        " ('forge-infinity', curve, enc, s): in-range signatures built with the private key so that the verification point is the point at infinity must be rejected with BadSignatureError; ('canon-edge', curve, enc, delta): nonce and digest chosen so that s = (n-1)/2 + delta - the canonising encoders must return s <= (n-1)/2.")
 ASSUMPTIONS = [
     "OpenSSL 3 CLI is the interoperability oracle (non-DER encodings are converted with the reference DER writer)",
     "documented errors: BadSignatureError from verify; MalformedSignature / UnexpectedDER from the decoders",
